@@ -1,26 +1,37 @@
 #!/usr/bin/env python3-vt
-"""dev helper: verify the named functions and print non-proved obligations (or all with -v)"""
-import sys, time, os
+"""dev helper: verify the named functions in parallel and print non-proved obligations (or all with -v)"""
+import sys, time, os, multiprocessing as mp
 sys.path.insert(0, os.path.join(os.path.dirname(os.path.abspath(__file__)), '..'))
 from pyvc.spec import load_all, REG
-from pyvc.symex import World
-from pyvc.verify import verify_function
-load_all()
-w = World()
 verbose = '-v' in sys.argv
 tmo = 10000
-args = [a for a in sys.argv[1:] if not a.startswith('-')]
-quals = []
-for a in args:
-    quals += [q for q in REG.contracts if a in q and not REG.contracts[q].trusted]
-for q in quals:
+for a in sys.argv:
+    if a.startswith('--tmo='):
+        tmo = int(a.split('=')[1])
+
+
+def one(q):
+    from pyvc.symex import World
+    from pyvc.verify import verify_function
     t = time.time()
-    r = verify_function(w, q, tmo)
+    r = verify_function(World(), q, tmo)
     bad = [o for o in r.obligations if o['verdict'] != 'proved']
-    print('%-60s obls=%d bad=%d paths=%d %.2fs %s' % (q, len(r.obligations), len(bad), r.paths, time.time() - t, ('OOS: ' + r.out_of_subset) if r.out_of_subset else ''))
+    out = ['%-60s obls=%d bad=%d paths=%d %.2fs %s' % (q, len(r.obligations), len(bad), r.paths, time.time() - t, ('OOS: ' + r.out_of_subset) if r.out_of_subset else '')]
     if r.error:
-        print(r.error)
+        out.append(r.error)
     for o in (r.obligations if verbose else bad):
-        print('   ', o['verdict'], o['backend'], o['seconds'], o['name'], '|', o['detail'][:140], '|', o.get('note'))
+        out.append('    %s %s %s %s | %s | %s' % (o['verdict'], o['backend'], o['seconds'], o['name'], o['detail'][:140], o.get('note')))
         if o['verdict'] == 'refuted' and o.get('model') and '-m' in sys.argv:
-            print('       model:', o['model'])
+            out.append('       model: %s' % o['model'])
+    return '\n'.join(out)
+
+
+if __name__ == '__main__':
+    load_all()
+    args = [a for a in sys.argv[1:] if not a.startswith('-')]
+    quals = []
+    for a in args:
+        quals += [q for q in REG.contracts if a in q and not REG.contracts[q].trusted and q not in quals]
+    with mp.get_context('fork').Pool(min(16, max(1, len(quals)))) as pool:
+        for res in pool.imap_unordered(one, quals):
+            print(res, flush=True)
